@@ -109,6 +109,37 @@ func (*CopyOnWriteBuffer).WriteByte
   ensures result == nil
   modifies b.buffer, b.copied, contents(b.buffer)
 
+func (*CopyOnWriteBuffer).Append
+  requires b.copied ==> owned(b.buffer)
+  ensures b.copied && owned(b.buffer)
+  ensures len(b.buffer) == old(len(b.buffer)) + len(value)
+  ensures forall k int {b.buffer[k]} :: 0 <= k && k < old(len(b.buffer)) ==> b.buffer[k] == old(b.buffer[k])
+  ensures forall k int {b.buffer[k]} :: old(len(b.buffer)) <= k && k < len(b.buffer) ==> b.buffer[k] == old(value[k-len(b.buffer)])
+  ensures fresh(b.buffer) || (old(b.copied) && arrof(b.buffer) == old(arrof(b.buffer)))
+  modifies b.buffer, b.copied, contents(b.buffer)
+
+func (*CopyOnWriteBuffer).AppendByte
+  requires b.copied ==> owned(b.buffer)
+  ensures b.copied && owned(b.buffer)
+  ensures len(b.buffer) == old(len(b.buffer)) + 1
+  ensures forall k int {b.buffer[k]} :: 0 <= k && k < old(len(b.buffer)) ==> b.buffer[k] == old(b.buffer[k])
+  ensures b.buffer[len(b.buffer)-1] == c
+  ensures fresh(b.buffer) || (old(b.copied) && arrof(b.buffer) == old(arrof(b.buffer)))
+  modifies b.buffer, b.copied, contents(b.buffer)
+
+func DoFullUnicodeCaseFolding
+  ensures fresh(result) || sameslice(result, v)
+  modifies nothing
+  loop 0 inv (rbuf == nil || (fresh(rbuf) && len(rbuf) == 4)) && 0 <= n && n <= i && i <= len(v)
+  loop 0 inv !cob.copied ==> sameslice(cob.buffer, v)
+  loop 0 inv cob.copied ==> fresh(cob.buffer)
+  loop 1 inv fresh(rbuf) && len(rbuf) == 4 && cob.copied && fresh(cob.buffer)
+
+func ReplaceSpaces
+  ensures fresh(result) || sameslice(result, source)
+  modifies nothing
+  loop 0 inv ret == nil || fresh(ret)
+
 func EscapeHTML
   uses htmlEscapeTableFacts
   ensures inert(result)
